@@ -179,6 +179,21 @@ def factories(rng):
     from tenpy.algorithms import tebd
     tebd.TEBDEngine(psi, M, {'dt': 0.1, 'N_steps': 3, 'trunc_params': {'chi_max': 8}}).run()
     add(psi)
+    # an MPS whose tensors have different dtypes (real state, complex unitary on one inner site), a non-trivial norm, mixed forms
+    import tenpy.linalg.np_conserved as npc_
+    psi_mixed = mps.MPS.from_product_state(M.lat.mps_sites(), ['up', 'down', 'up', 'down'], 'finite')
+    from tenpy.algorithms import dmrg as dmrg_
+    dmrg_.TwoSiteDMRGEngine(psi_mixed, M, {'max_sweeps': 2, 'trunc_params': {'chi_max': 8}, 'mixer': False}).run()    # real, entangled
+    psi_mixed.apply_local_op(2, npc_.expm(0.3j * M.lat.mps_sites()[2].get_op('Sz')), unitary=True)
+    psi_mixed.norm = 0.7
+    psi_mixed.convert_form(['A', 'B', 'C', 'Th'])
+    add(psi_mixed, 'mixed dtypes, norm 0.7, forms A/B/C/Th')
+    psi_inf = mps.MPS.from_product_state([S.SpinHalfSite('Sz')] * 2, ['up', 'down'], 'infinite')
+    M_inf = XXZChain({'L': 2, 'Jxx': 1., 'Jz': 0.5, 'hz': 0.1, 'bc_MPS': 'infinite'})
+    tebd.TEBDEngine(psi_inf, M_inf, {'dt': 0.1, 'N_steps': 3, 'trunc_params': {'chi_max': 6}}).run()
+    psi_inf.apply_local_op(1, npc_.expm(0.3j * psi_inf.sites[1].get_op('Sz')), unitary=True)
+    add(psi_inf, 'infinite')
+    add(psi_inf.extract_segment(0, 3), 'segment') if hasattr(psi_inf, 'extract_segment') else None
     add(mps.MPSEnvironment(psi, psi)) if hasattr(mps.MPSEnvironment, 'save_hdf5') else None
     tl = terms.TermList([[('Sz', 0)], [('Sp', 0), ('Sm', 2)]], [1., 0.5j])
     add(tl)
